@@ -279,3 +279,28 @@ mod tests {
         assert_eq!(result.len(), 1);
     }
 }
+
+#[cfg(feature = "verif")]
+impl<R, E: Expiration, V: ExpiredVal<E>> SegExpTree<R, E, V>
+where
+    i64: From<R>,
+{
+    /// per place, the stored copies `(value, place mask)` in storage order
+    pub fn verif_chunks(&self) -> Vec<Vec<(V, u64)>> {
+        self.chunks
+            .iter()
+            .map(|c| c.buffer.iter().map(|e| (e.val, e.mask)).collect())
+            .collect()
+    }
+
+    /// `(min, max, scale, count)`
+    pub fn verif_layout(&self) -> (i64, i64, u32, usize) {
+        let (min, max, scale) = self.layout.verif_fields();
+        (min, max, scale, self.layout.count())
+    }
+
+    /// bucket of a coordinate
+    pub fn verif_index(&self, value: i64) -> u32 {
+        self.layout.index(value)
+    }
+}
